@@ -108,72 +108,89 @@ func (r *runner) runHarness(hs harnessSpec) (*harnessResult, error) {
 	for _, k := range keys {
 		prs := st.Violations[k]
 		v := &violation{Key: k, Count: st.ViolCount[k]}
-		var pr *interp.PathResult
+		var cands []*interp.PathResult
 		for _, c := range prs {
 			if c.HasModel {
-				pr = c
-				break
+				cands = append(cands, c)
 			}
 		}
-		if pr == nil {
+		if len(cands) == 0 {
 			v.Human = "no model available (solver unknown): " + prs[0].Msg
 			hr.Unreproduced = append(hr.Unreproduced, v)
 			continue
 		}
-		c := nativeCase{ID: "cex", Harness: hs.Fn, Params: params, Inputs: nativeInputs(pr.Inputs)}
-		v.Human = fmt.Sprintf("%s %s | inputs: %s", pr.Msg, pr.Pos, humanInputs(pr.Inputs))
-		if len(v.Human) > 1200 {
-			v.Human = v.Human[:1200] + "…"
-		}
-		dir := filepath.Join(r.vd, "replays", r.prop)
-		os.MkdirAll(dir, 0o755)
-		path := filepath.Join(dir, fmt.Sprintf("%s-%s.json", hs.Fn, sanitize(k)))
-		writeJSON(path, map[string]interface{}{"property": r.prop, "harness": hs.Fn, "pkg": hs.Pkg, "predicted": map[string]string{"outcome": pr.Outcome, "detail": pr.Detail, "msg": pr.Msg, "pos": pr.Pos}, "timeout_ms": hangMs, "cases": []nativeCase{c}})
-		v.ReplayPath = path
-		if !r.doReplay {
-			v.Reproduced = true
-			hr.Violations = append(hr.Violations, v)
-			continue
-		}
-		nres, err := r.nativeRunOpt(hs.Pkg, []nativeCase{c}, hangMs, hs.Race)
-		if err != nil {
-			return nil, fmt.Errorf("native replay: %v", err)
-		}
-		nr, ok := nres["cex"]
-		if !ok {
-			v.Native = "no result (process died: out of memory or fatal error)"
-			// a crash of the whole test process is a reproduced crash for panic-type predictions
-			if pr.Outcome == "panic" {
-				v.Reproduced = true
+		maxTry := 1
+		if hs.Race || hs.TryWitnesses > 0 {
+			maxTry = 6
+			if hs.TryWitnesses > 0 {
+				maxTry = hs.TryWitnesses
 			}
-		} else {
-			v.Native = nr.Outcome + " " + firstLine(nr.Detail)
-			switch pr.Outcome {
-			case "violation":
-				v.Reproduced = nr.Outcome == "assert" && nr.Detail == pr.Detail
-				if nr.Outcome == "panic" || nr.Outcome == "hang" {
-					v.Reproduced = true // even worse natively
-				}
-				if hs.Race && (nr.Outcome == "race" || nr.Outcome == "assert") {
-					// the symbolic side reports a store to shared state; natively that shows as a data race or as a
-					// concurrent call whose result differs from its solo result
+		}
+		terminates := false
+		for ti, pr := range cands {
+			if ti >= maxTry {
+				break
+			}
+			c := nativeCase{ID: "cex", Harness: hs.Fn, Params: params, Inputs: nativeInputs(pr.Inputs)}
+			v.Human = fmt.Sprintf("%s %s | inputs: %s", pr.Msg, pr.Pos, humanInputs(pr.Inputs))
+			if len(v.Human) > 1200 {
+				v.Human = v.Human[:1200] + "…"
+			}
+			dir := filepath.Join(r.vd, "replays", r.prop)
+			os.MkdirAll(dir, 0o755)
+			path := filepath.Join(dir, fmt.Sprintf("%s-%s.json", hs.Fn, sanitize(k)))
+			writeJSON(path, map[string]interface{}{"property": r.prop, "harness": hs.Fn, "pkg": hs.Pkg, "predicted": map[string]string{"outcome": pr.Outcome, "detail": pr.Detail, "msg": pr.Msg, "pos": pr.Pos}, "timeout_ms": hangMs, "cases": []nativeCase{c}})
+			v.ReplayPath = path
+			if !r.doReplay {
+				v.Reproduced = true
+				break
+			}
+			nres, err := r.nativeRunOpt(hs.Pkg, []nativeCase{c}, hangMs, hs.Race)
+			if err != nil {
+				return nil, fmt.Errorf("native replay: %v", err)
+			}
+			nr, ok := nres["cex"]
+			if !ok {
+				v.Native = "no result (process died: out of memory or fatal error)"
+				// a crash of the whole test process is a reproduced crash for panic-type predictions
+				if pr.Outcome == "panic" {
 					v.Reproduced = true
 				}
-			case "panic":
-				v.Reproduced = nr.Outcome == "panic"
-			case "unwind":
-				v.Reproduced = nr.Outcome == "hang"
-				if nr.Outcome == "ok" || nr.Outcome == "assert" || nr.Outcome == "panic" {
-					// terminates natively: the engine's budget was too small, not a finding
-					st.ByOutcome["unwind-terminates"] += st.ViolCount[k]
-					v.Native += " (terminates natively; engine step budget too small)"
+			} else {
+				v.Native = nr.Outcome + " " + firstLine(nr.Detail)
+				switch pr.Outcome {
+				case "violation":
+					v.Reproduced = nr.Outcome == "assert" && nr.Detail == pr.Detail
+					if nr.Outcome == "panic" || nr.Outcome == "hang" {
+						v.Reproduced = true // even worse natively
+					}
+					if hs.Race && (nr.Outcome == "race" || nr.Outcome == "assert") {
+						// the symbolic side reports a store to shared state; natively that shows as a data race or as a
+						// concurrent call whose result differs from its solo result
+						v.Reproduced = true
+					}
+				case "panic":
+					v.Reproduced = nr.Outcome == "panic"
+				case "unwind":
+					v.Reproduced = nr.Outcome == "hang"
+					if nr.Outcome == "ok" || nr.Outcome == "assert" || nr.Outcome == "panic" {
+						terminates = true
+					}
 				}
 			}
+			v.Human += " | native: " + v.Native
+			if v.Reproduced {
+				break
+			}
 		}
-		v.Human += " | native: " + v.Native
+		if !v.Reproduced && terminates {
+			// terminates natively: the engine's budget was too small, not a finding
+			st.ByOutcome["unwind-terminates"] += st.ViolCount[k]
+			v.Human += " (terminates natively; engine step budget too small)"
+		}
 		if v.Reproduced {
 			hr.Violations = append(hr.Violations, v)
-		} else if pr.Outcome != "unwind" {
+		} else if !strings.HasPrefix(k, "unwind:") {
 			hr.Unreproduced = append(hr.Unreproduced, v)
 		}
 	}
